@@ -34,7 +34,7 @@ type ContractEnv struct {
 
 // NewContractEnv deploys the contract, funds the given wallets on chain and
 // puts the contract-backed balance store in front of st.
-func NewContractEnv(st store.AccountStore, wallets []*Identity) (*ContractEnv, error) {
+func NewContractEnv(st store.AccountStore, wallets []*Identity, pre func(*ContractEnv)) (*ContractEnv, error) {
 	op := NewIdentity("contract-operator", 0)
 	funds, _ := new(big.Int).SetString("1000000000000000000000000", 10)
 	alloc := core.GenesisAlloc{crypto2addr(op): {Balance: funds}}
@@ -52,6 +52,10 @@ func NewContractEnv(st store.AccountStore, wallets []*Identity) (*ContractEnv, e
 	}
 	env.Backend.Commit()
 	env.Addr, env.Contract = addr, contract
+	if pre != nil {
+		// chain history from before the pool (re)started: none of it is in the pool's deposit cache
+		pre(env)
+	}
 	cp, err := payment.ContractPayment(st, addr, env.Backend, env.Op)
 	if err != nil {
 		env.Backend.Close()
@@ -68,6 +72,16 @@ func (e *ContractEnv) Deposit(w *Identity, wei *big.Int) error {
 	auth := bind.NewKeyedTransactor(w.Key)
 	auth.Value = new(big.Int).Set(wei)
 	if _, err := e.Contract.AddBalance(auth); err != nil {
+		return err
+	}
+	e.Backend.Commit()
+	return nil
+}
+
+// ForceSettle is the wallet owner's unilateral exit: the deposit becomes
+// time-locked, which the balance store reports as an error on lookup.
+func (e *ContractEnv) ForceSettle(w *Identity) error {
+	if _, err := e.Contract.ForceSettle(bind.NewKeyedTransactor(w.Key)); err != nil {
 		return err
 	}
 	e.Backend.Commit()
